@@ -4,7 +4,17 @@ import numpy as np
 
 from . import common as C
 
+from translate import solvers as TS11
+from translate import solvers_c12 as TS12
+
 PID = 'C12'
+
+
+def translate():
+    # Gen/Solvers.v: C11's translator (landweber, kaczmarz, pdhg, admm, proximal gradient, ... as programs);
+    # Gen/SolversC12.v: cg, cgn, power method, forward-backward as Gallina over the generic operations
+    return {'Gen/Solvers.v': TS11.translate(), 'Gen/SolversC12.v': TS12.translate()}
+
 SHARD_SIZE = 40
 RULE = ('every anchored solver loop is run on small integer/dyadic problems (rn, constant-weighted rn and '
         'uniform_discr spaces; dense integer matrices incl. ill-conditioned SPD ones, PartialDerivative and scaled identities, '
